@@ -406,7 +406,8 @@ unsafe fn dispose_general_node<T: RcObject>(
     let state = State::from_raw(rc.state.load(Ordering::SeqCst));
     vy!(1015, ptr, state.as_raw());
     let node_epoch = state.epoch();
-    debug_assert_eq!(state.strong(), 0);
+    // The strong field is not necessarily zero here: an increment that fails on a destructed object
+    // (or that resurrects a cascade child, handled below) leaves its addition in the word.
 
     vy!(116, ptr, 0);
     let curr_epoch = global_epoch();
